@@ -104,7 +104,9 @@ def get_file_metadata(path, hashes):
         yield st.st_mtime
 
         f = open(fd, 'rb')
-    except Exception:
+    except BaseException:
+        # (including GeneratorExit: consumers close the generator
+        # as soon as they have seen enough)
         if opened:
             os.close(fd)
         raise
